@@ -75,6 +75,9 @@ structure TProto where
   /-- IEEE-754 binary64 bit patterns -/
   doubleData : List Nat := []
   stringData : List ByteArray := []
+  /-- `raw_data`, as bytes; ONNX: fixed-width little-endian, C order. spox never writes it
+      (`raw=False`), `to_array` reads it when present. -/
+  rawData : Option (List Nat) := none
   deriving DecidableEq
 
 /-- The signed integer whose `bits`-wide two's-complement pattern is `w`. -/
@@ -122,11 +125,36 @@ def fromArray (q : Bool) (a : Arr) (name : String := "") : Option TProto :=
   | .stringData => some { base with stringData := a.strs.map encodeStr }
   | .none => none
 
-/-- `onnx.numpy_helper.to_array(t)` for a typed-field tensor. `none` = it raises. -/
+/-- Bytes per payload word. -/
+def DType.bytes : DType → Nat
+  | .bool => 1
+  | d => d.bits / 8
+
+/-- little-endian bytes of a word / the word of little-endian bytes -/
+def toLE : Nat → Nat → List Nat
+  | 0, _ => []
+  | n + 1, w => w % 256 :: toLE n (w / 256)
+def fromLE : List Nat → Nat
+  | [] => 0
+  | b :: bs => b + 256 * fromLE bs
+
+def encodeRaw (nb : Nat) (ws : List Nat) : List Nat := ws.flatMap (toLE nb)
+/-- `np.frombuffer(raw, dtype)`: `k` words of `nb` bytes each. -/
+def decodeRaw (nb : Nat) : Nat → List Nat → List Nat
+  | 0, _ => []
+  | k + 1, bs => fromLE (bs.take nb) :: decodeRaw nb k (bs.drop nb)
+
+/-- `onnx.numpy_helper.to_array(t)`: `raw_data` if present (little-endian, exact — no float
+    conversion happens), else the typed field. `none` = it raises. -/
 def toArray (q : Bool) (t : TProto) : Option Arr :=
   match onnxDType t.dataType with
   | none => none
   | some d =>
+    match t.rawData with
+    | some raw =>
+      if d = .str ∨ d.bytes = 0 then none
+      else some ⟨d, t.dims, decodeRaw d.bytes (raw.length / d.bytes) raw, []⟩
+    | none =>
     match fieldOf d with
     | .int32Data => some ⟨d, t.dims, t.int32Data.map (decInt32 d), []⟩
     | .int64Data => some ⟨d, t.dims, t.int64Data.map (ofInt d.bits), []⟩
@@ -135,6 +163,12 @@ def toArray (q : Bool) (t : TProto) : Option Arr :=
     | .doubleData => some ⟨d, t.dims, t.doubleData, []⟩
     | .stringData => (t.stringData.mapM decodeStr).map fun ss => ⟨d, t.dims, [], ss⟩
     | .none => none
+
+/-- The same array in raw storage, as the ONNX specification defines it (an implementation that
+    chose `raw_data` would have to produce exactly this). -/
+def rawProto (a : Arr) (name : String := "") : TProto :=
+  { dataType := enumOf a.dtype, dims := a.shape, name := name,
+    rawData := some (encodeRaw a.dtype.bytes a.words) }
 
 /-- What comes back: the array itself, except that float32 components that are signalling NaNs
     have their quiet bit set when the platform does that (`q`). -/
